@@ -19,7 +19,7 @@ ID = "C10"
 UNSET = "<unset>"
 
 NAMES = ["c", "al", "ad", "l", "d", "s", "fac", "dyn", "t", "u", "inst", "ts", "td", "us", "tn",
-         "ps"]
+         "ps", "cn", "sh"]
 
 DYN = types.ModuleType("simtraits.dyn")
 sys.modules["simtraits.dyn"] = DYN
@@ -44,7 +44,7 @@ def declared_default(cls_name, name):
         "c": 3, "al": [1, 2], "ad": {"k": 1}, "l": [1, 2, 3], "d": {"a": 1}, "s": {1, 2},
         "fac": {"made": True}, "dyn": ["dyn", cls_name], "t": ([], 0), "u": [], "inst": [7],
         "ts": (set(), 0), "td": ({}, 0), "us": set(), "tn": ("", (set(), 0)),
-        "ps": ["ps", cls_name],
+        "ps": ["ps", cls_name], "cn": [5, 6], "sh": 7,
     }
     if cls_name == "B":
         d["l"] = [9]
@@ -133,7 +133,7 @@ class Prop:
     # ------------------------------------------------------------------ world
     def build(self, env, calls, hlog):
         from traits.api import (HasTraits, Int, Any, List, Dict, Set, Str, Tuple, Union,
-                                Instance, observe)
+                                Instance, observe, ComparisonMode)
 
         def factory():
             env.point("default:factory")
@@ -180,6 +180,14 @@ class Prop:
         def _dec(self, event):
             env.point("h:dec")
             hlog.append(("dec", id(event.object), event.name))
+        shared_ct = Int(7).as_ctrait()
+
+        def _sh_default_other(self):
+            return 99
+
+        def _sh_changed_other(self, old, new):
+            # (tagged with owner -1: a call during an op on an A/B instance is foreign)
+            hlog.append(("static-other", id(self), "sh", -1))
         with warnings.catch_warnings():
             warnings.simplefilter("ignore", DeprecationWarning)
             ns = {
@@ -191,9 +199,13 @@ class Prop:
                 "us": Union(Set(Int), None), "tn": Tuple(Str, Tuple(Set(Int), Int)),
                 "inst": Instance(list, ([7],)),
                 "ps": PostSet(), "_ps_default": mk_ps("A"),
+                # never compared: every assignment is a change - a first read is none
+                "cn": Any([5, 6], comparison_mode=ComparisonMode.none),
+                # a ready-made trait definition object that another class declares too
+                "sh": shared_ct,
                 "_dyn_default": mk_dyn("A"), "_c_changed": _c_changed,
                 "_anytrait_changed": _anytrait_changed,
-                "_dec": observe("c, l, d, s, al, dyn")(_dec),
+                "_dec": observe("c, l, d, s, al, dyn, cn, sh")(_dec),
                 "__module__": "simtraits.dyn",
             }
             A = type(HasTraits)("A", (HasTraits,), ns)
@@ -201,6 +213,17 @@ class Prop:
                                             "_dyn_default": mk_dyn("B"),
                                             "_ps_default": mk_ps("B"),
                                             "__module__": "simtraits.dyn"})
+            # an unrelated class, created later, declares the same definition object and
+            # attaches its own default method and static handler to ITS copy of it
+            Other = type(HasTraits)("Other", (HasTraits,), {
+                "sh": shared_ct, "_sh_default": _sh_default_other,
+                "_sh_changed": _sh_changed_other, "__module__": "simtraits.dyn"})
+            other = Other()
+            if other.sh != 99:
+                raise Violation("C10.wrong-default", "Other().sh reads %r, its default method "
+                                "returns 99" % (other.sh,), None)
+            other.sh = 5
+            del hlog[:]
         A.__qualname__, B.__qualname__ = "A", "B"
         DYN.A, DYN.B = A, B
         return {"A": A, "B": B}
@@ -238,7 +261,7 @@ class Prop:
                 raise Violation("C10.construct", "%s() raised %r" % (cn, e), None)
             if hlog:
                 raise Violation("C10.construct-notified", "constructing %s() called %r"
-                                % (cn, hlog[0]), None)
+                                % (cn, (hlog[0][0], hlog[0][2])), None)
             serial[0] += 1
             o.__dict__["_sim_serial"] = serial[0]
             insts.append({"obj": o, "cls": cn, "model": {}, "ident": {}, "extras": set(),
@@ -308,7 +331,7 @@ class Prop:
                         if hlog:
                             raise Violation("C10.default-notified",
                                             "first read of %s.%s reached handler %r"
-                                            % (cn, name, hlog[0]), i)
+                                            % (cn, name, (hlog[0][0], hlog[0][2])), i)
                         m[name] = plain(v)
                     v2, _ = sut(getattr, o, name)
                     if v2 is not v:
@@ -327,7 +350,7 @@ class Prop:
                         if hlog:
                             raise Violation("C10.default-notified",
                                             "first read of %s.%s reached handler %r"
-                                            % (cn, name, hlog[0]), i)
+                                            % (cn, name, (hlog[0][0], hlog[0][2])), i)
                     n = op["v"]
                     tgt = first_mutable(v)
                     if isinstance(tgt, list):
@@ -431,7 +454,7 @@ class Prop:
                 if target is None or rec[1] != id(target["obj"]):
                     raise Violation("C10.foreign-handler-call",
                                     "%s on one instance called handler %r of another object"
-                                    % (k, rec), i)
+                                    % (k, (rec[0], rec[2])), i)
                 if len(rec) > 3 and rec[3] != target["obj"].__dict__["_sim_serial"]:
                     raise Violation("C10.foreign-handler-call",
                                     "%s on instance #%d called a handler that was registered on "
@@ -470,8 +493,10 @@ class Prop:
     def value_for(name, op):
         n = op["v"]
         bad = op.get("bad")
-        if name == "c":
+        if name in ("c", "sh"):
             return ("x", False) if bad else (n, True)
+        if name == "cn":
+            return ([n] if op.get("alt") else {"q": n}), True
         if name in ("al", "ad", "fac", "dyn", "ps"):
             return ([n] if op.get("alt") else {"q": n}), True
         if name == "l":
